@@ -5,6 +5,7 @@
    the body does not tell apart: e.g. an injective key), size = size of a pickled value.  Histories are lists of any length; worlds hold any number of instances and one disk. *)
 From Coq Require Import ZArith List Bool String Ascii.
 From DM Require Import Base.PyVal Gen.KMemo Spec.Memo Model.Memo Proofs.MemoFacts Run.SC20 Run.RC20 Proofs.MemoRunFacts
+                       Spec.MemoExn Model.MemoExn Proofs.MemoExnFacts
                        Spec.MemoKey Model.MemoKey Proofs.MemoKeyFacts Proofs.MemoKeyedFacts Proofs.MemoSerialFacts
                        Spec.MemoLazy Model.MemoLazy Proofs.MemoLazyFacts.
 Import ListNotations.
@@ -478,3 +479,107 @@ Example C20_ex_lazy :
   (* an implementation that passes the containers on untouched is rejected by the oracle *)
   /\ lazy_observed_ok ex_lazy_tab ex_lazy_call ex_lazy_call 0 = false.
 Proof. vm_compute. repeat split; reflexivity. Qed.
+
+(* ---------------------------------------------------------------------------------------------------------------
+   Calls that RAISE (Spec/MemoExn.v, Model/MemoExn.v, Proofs/MemoExnFacts.v).  exn a = Some true: the body raises for
+   the argument list a; Some false: a callable argument raises while it is evaluated (lazy mode); None: f a is returned.
+   --------------------------------------------------------------------------------------------------------------- *)
+
+(* clear() followed by a call that raises: THAT call is "the next call" -- the flag is reset by its lookup (kernel
+   k_read_cache), nothing is stored for its key, and whatever was stored for any OTHER key is served from the store by
+   the call after it (the body does not run, no callable is evaluated) *)
+Theorem C20_memo_raise_consumes_clear :
+  forall (A K V F : Type) (f : A -> V) (exn : A -> option bool) (key_of : A -> K) (thunks : A -> nat) (size : V -> Z)
+         (keqb : K -> K -> bool) (feqb : F -> F -> bool),
+    (forall a b : K, keqb a b = true <-> a = b) -> (forall a b : F, feqb a b = true <-> a = b) ->
+    forall (o : opts K F) (st : inst K V) (d : list (F * K * V)) (a : A) (x : xevent K) (st1 : inst K V)
+           (d1 : list (F * K * V)),
+      icall_x A K V F f exn key_of thunks size keqb feqb o (iclear K V st) d a = (inr x, st1, d1) ->
+      ign st1 = false
+      /\ stored K V F keqb feqb o (cache st1) d1 (key A K F key_of o a) = None
+      /\ forall (b : A) (v : V), key A K F key_of o b <> key A K F key_of o a ->
+           stored K V F keqb feqb o (cache st) d (key A K F key_of o b) = Some v ->
+           exists ev st2, icall A K V F f key_of thunks size keqb feqb o st1 d1 b = (ev, st2, d1)
+                          /\ e_ran ev = false /\ e_ret ev = v /\ e_forced ev = 0%nat.
+Proof. exact memo_raise_consumes_clear. Qed.
+Print Assumptions C20_memo_raise_consumes_clear.
+
+(* a raising call that does not follow clear() changes nothing: no entry, no file, no flag *)
+Theorem C20_memo_raise_changes_nothing :
+  forall (A K V F : Type) (f : A -> V) (exn : A -> option bool) (key_of : A -> K) (thunks : A -> nat) (size : V -> Z)
+         (keqb : K -> K -> bool) (feqb : F -> F -> bool),
+    forall (o : opts K F) (st : inst K V) (d : list (F * K * V)) (a : A) (x : xevent K) (st1 : inst K V)
+           (d1 : list (F * K * V)),
+      ign st = false -> icall_x A K V F f exn key_of thunks size keqb feqb o st d a = (inr x, st1, d1) ->
+      cache st1 = cache st /\ d1 = d /\ ign st1 = false.
+Proof. exact memo_raise_changes_nothing. Qed.
+Print Assumptions C20_memo_raise_changes_nothing.
+
+(* a call raises only on a miss, with the body / the callables run as the outcome says *)
+Theorem C20_memo_raise_only_on_miss :
+  forall (A K V F : Type) (f : A -> V) (exn : A -> option bool) (key_of : A -> K) (thunks : A -> nat) (size : V -> Z)
+         (keqb : K -> K -> bool) (feqb : F -> F -> bool),
+    forall (o : opts K F) (st : inst K V) (d : list (F * K * V)) (a : A) (x : xevent K) (st1 : inst K V)
+           (d1 : list (F * K * V)),
+      icall_x A K V F f exn key_of thunks size keqb feqb o st d a = (inr x, st1, d1) ->
+      exists b, raises_at A K F exn o a = Some b /\ x_ran x = b /\ x_forced x = (if lazy o then thunks a else 0%nat)
+        /\ stored K V F keqb feqb o (forget A K V F key_of keqb o st a) (dforget A K V F key_of keqb feqb o st d a)
+                  (key A K F key_of o a) = None
+        /\ st1 = {| cache := forget A K V F key_of keqb o st a; ign := false |}
+        /\ d1 = dforget A K V F key_of keqb feqb o st d a
+        /\ x_keys x = map fst (forget A K V F key_of keqb o st a)
+        /\ x_csize x = total K V size (forget A K V F key_of keqb o st a)
+        /\ x_files x = dkeys K V F feqb (folder o) (dforget A K V F key_of keqb feqb o st d a).
+Proof. exact icall_x_raise. Qed.
+Print Assumptions C20_memo_raise_only_on_miss.
+
+(* where no call raises, the model with raising calls is the model of Model/Memo.v and the extended acceptor is the
+   acceptor of Spec/Memo.v: every theorem above applies to the returning calls of such histories *)
+Theorem C20_memo_exn_conservative_model :
+  forall (A K V F : Type) (f : A -> V) (exn : A -> option bool) (key_of : A -> K) (thunks : A -> nat) (size : V -> Z)
+         (keqb : K -> K -> bool) (feqb : F -> F -> bool) (o : opts K F) (st : inst K V) (d : list (F * K * V)) (a : A),
+    raises_at A K F exn o a = None ->
+    icall_x A K V F f exn key_of thunks size keqb feqb o st d a
+    = (let '(ev, st1, d1) := icall A K V F f key_of thunks size keqb feqb o st d a in (inl ev, st1, d1)).
+Proof. exact icall_x_returns. Qed.
+Print Assumptions C20_memo_exn_conservative_model.
+
+Theorem C20_memo_exn_conservative_spec :
+  forall (A K V F : Type) (f : A -> V) (exn : A -> option bool) (key_of : A -> K) (thunks : A -> nat) (size : V -> Z)
+         (keqb : K -> K -> bool) (veqb : V -> V -> bool) (feqb : F -> F -> bool),
+    (forall a, exn a = None) ->
+    forall (tr : list (tev A K V F)) (w : world K V F),
+      accept_x A K V F f exn key_of thunks size keqb veqb feqb w (map XT tr)
+      = accept A K V F f key_of thunks size keqb veqb feqb w tr.
+Proof. exact accept_x_conservative. Qed.
+Print Assumptions C20_memo_exn_conservative_spec.
+
+(* L1 refines L0 with raising calls: every trace of the model, over every history from the initial world, is accepted *)
+Theorem C20_model_x_accepted :
+  forall (A K V F : Type) (f : A -> V) (exn : A -> option bool) (key_of : A -> K) (thunks : A -> nat) (size : V -> Z)
+         (keqb : K -> K -> bool) (veqb : V -> V -> bool) (feqb : F -> F -> bool),
+    (forall a b : K, keqb a b = true <-> a = b) -> (forall a b : F, feqb a b = true <-> a = b) ->
+    (forall v : V, veqb v v = true) -> (forall a b : A, key_of a = key_of b -> f a = f b) ->
+    forall ops : list (op A K F), Forall (new_ok A K F key_of) ops ->
+      accept_x A K V F f exn key_of thunks size keqb veqb feqb w0
+               (snd (wrun_x A K V F f exn key_of thunks size keqb feqb w0 ops)) = true.
+Proof. exact model_x_accepted_w0. Qed.
+Print Assumptions C20_model_x_accepted.
+
+(* non-vacuity: f 2; f 4; clear(); a raising call; f 4; f 2 -- the raising call re-executes (and raises), the two cached
+   results are served from the cache afterwards; the acceptor rejects the trace in which f 4 runs again *)
+Definition exn_ops : list (op nat Z Z) :=
+  [ONew (mo false None false 1000 0); OCall 0 2%nat; OCall 0 4%nat; OClear 0; OCall 0 160%nat; OCall 0 4%nat; OCall 0 2%nat].
+Example C20_ex_raise_trace :
+  model_trace_x [(2, 10); (4, 10)] exn_ops
+  = [xT (tN (mo false None false 1000 0)); xT (tC 0 2 (me 2 true 0 [2] 10 [])); xT (tC 0 4 (me 4 true 0 [2; 4] 20 []));
+     xT (tX 0); xR 0 160 (mx true 0 [2; 4] 20 []); xT (tC 0 4 (me 4 false 0 [2; 4] 20 []));
+     xT (tC 0 2 (me 2 false 0 [2; 4] 20 []))].
+Proof. vm_compute. reflexivity. Qed.
+Example C20_ex_raise_accepted : oracle_x [(2, 10); (4, 10)] (model_trace_x [(2, 10); (4, 10)] exn_ops) = true.
+Proof. vm_compute. reflexivity. Qed.
+Example C20_ex_raise_rejects_late_rerun :
+  oracle_x [(2, 10); (4, 10)]
+    [xT (tN (mo false None false 1000 0)); xT (tC 0 2 (me 2 true 0 [2] 10 [])); xT (tC 0 4 (me 4 true 0 [2; 4] 20 []));
+     xT (tX 0); xR 0 160 (mx true 0 [2; 4] 20 []); xT (tC 0 4 (me 4 true 0 [2; 4] 20 []))] = false.
+Proof. vm_compute. reflexivity. Qed.
